@@ -29,7 +29,12 @@ THEOREMS = [
 RULE = ("seeded generator shared with C01: exact family (coordinates (k/4)*2^s) and tolerance family (random doubles), "
         "classes {generic, empty_side, both_empty, repeated, diagonal, ties, inf, scale, near_tie, permuted, big, tol} "
         "plus C02's input-dtype class (integer-valued diagrams as uint8..float64 arrays, spec on the values), "
-        "sizes 0-6 per side (quick) / up to 16 (thorough); every batch under PYTHONHASHSEED 0,1,2; both distances are "
+        "sizes 0-6 per side (quick) / up to 16 (thorough); plus class sized: the total M+N, or one diagram alone, "
+        "at B-1..B+3 for block sizes B in {16,32,48,64} (quick, 10 pairs: every block balanced, 48 and 64 also with "
+        "one diagram alone next to the block as dgm1 and as dgm2, the other side 0-7 points or about B/2) / "
+        "{16,..,128} (thorough, 56 pairs), exact quarter grid, narrow half-integer grid (many ties) or random doubles, "
+        "half of the smaller diagram moved copies of points of the other, now and then an infinite bar or a "
+        "diagonal point; every batch under PYTHONHASHSEED 0,1,2; both distances are "
         "called with matching=False and matching=True. A case is non-trivial when both calls succeed and either one of "
         "the two returned matchings contains a cross pairing and a diagonal pairing, or an empty-diagram / "
         "infinite-death branch is exercised; distinct = distinct JSON input")
@@ -60,6 +65,94 @@ def _dtype_case(rng, nmax):
     return {"cls": "dtype", "family": "exact", "S": c["S"], "T": c["T"], "rep": "array", "dtype": c["dtype"]}
 
 
+# ---- sizes just above typical block sizes -------------------------------------------------------
+# Both routines work on the (M+N) x (M+N) augmented matrix, so a size-dependent code path (a compiled
+# matching / assignment routine from some node count on, chunked row extraction, a blocked cost matrix)
+# can key on M+N as well as on M or N alone.  `sized` cases put the total, or one side on its own, at
+# B-1, B, B+1, B+2, B+3 for B in BLOCKS, in three shapes: balanced, lopsided (0-5 points on the small
+# side; 0 = the empty-diagram stand-in) and one side alone above the block.
+BLOCKS_QUICK = (16, 32, 48, 64)
+BLOCKS_THOROUGH = (16, 32, 48, 64, 96, 128)
+SIZED_FLAVOURS = ("grid", "grid", "ties", "tol")
+
+
+def _sized_shape(rng, B, shape):
+    K = B + rng.choice([-1, 0, 1, 1, 2, 3])
+    if shape == "balanced":
+        m = K // 2 + rng.choice([0, 0, 1, -1])
+        n = K - m
+    elif shape == "lopsided":
+        n = rng.choice([0, 1, 2, 3, 5])
+        m = K - max(1, n)            # an empty side counts as the one-point stand-in
+    else:                            # "side": one diagram alone crosses the block
+        m = K
+        n = rng.choice([rng.randint(2, 7), B // 2 + 1, B // 4])
+    return m, n
+
+
+def _sized_case(rng, B, shape, flavour=None, big_first=None):
+    """One diagram pair with M+N (or M alone) next to the block size B.  About half of the smaller diagram
+    are moved copies of points of the other one and the rest is independent, so that the optimal matchings
+    mix cross and diagonal pairings.  Flavours: grid = exact family on the quarter grid (wide range, few
+    ties); ties = exact family on a narrow half-integer grid (many equal costs, many optimal matchings);
+    tol = random doubles."""
+    flavour = flavour or rng.choice(SIZED_FLAVOURS)
+    m, n = _sized_shape(rng, B, shape)
+    if flavour == "tol":
+        def pt():
+            b = rng.uniform(-5, 35)
+            return [b, b + rng.choice([rng.uniform(0, 10), rng.uniform(0, 0.05), rng.uniform(0, 2)])]
+
+        def moved(p):
+            e = rng.choice([0.3, 0.02, 1.5])
+            return [p[0] + rng.uniform(-e, e), p[1] + abs(rng.uniform(-e, e))]
+    else:
+        kr, ml, q = ((0, 160), 40, 4.0) if flavour == "grid" else ((0, 40), 40, 2.0)
+
+        def pt():
+            b = rng.randint(*kr)
+            return [b / q, (b + rng.randint(0, ml)) / q]
+
+        def moved(p):
+            return [p[0] + rng.randint(-4, 4) / q, p[1] + rng.randint(0, 4) / q]
+    S = [pt() for _ in range(m)]
+    T = [moved(p) for p in rng.sample(S, min(m, n) // 2)] if m and n else []
+    T += [pt() for _ in range(n - len(T))]
+    rng.shuffle(T)
+    r = rng.random()
+    if r < 0.15 and flavour != "tol":          # a point on the diagonal keeps its own row and index
+        A = rng.choice([S, T])
+        A.insert(rng.randint(0, len(A)), [3.0, 3.0])
+    elif r < 0.3:                               # an infinite bar is dropped first: the indices shift
+        A = rng.choice([S, T])
+        A.insert(rng.randint(0, len(A)), [1.0, "inf"])
+    if (rng.random() < 0.5) if big_first is None else (not big_first):
+        S, T = T, S
+    return {"cls": "sized", "family": "tol" if flavour == "tol" else "exact", "S": S, "T": T,
+            "rep": rng.choice(["array", "array", "array", "list"]), "block": B, "shape": shape}
+
+
+def _sized_cases(rng, tier):
+    out = []
+    if tier == "quick":
+        # every block once balanced (cycling through the flavours), plus lopsided / one-side cases
+        for k, B in enumerate(BLOCKS_QUICK):
+            out.append(_sized_case(rng, B, "balanced", flavour=("grid", "ties", "grid", "tol")[(k + rng.randint(0, 3)) % 4]))
+        # one diagram alone next to the block, as dgm1 and as dgm2
+        for B in (48, 64):
+            first = rng.choice(["lopsided", "side"])
+            out.append(_sized_case(rng, B, first, big_first=True))
+            out.append(_sized_case(rng, B, "side" if first == "lopsided" else "lopsided", big_first=False))
+        out.append(_sized_case(rng, rng.choice([16, 32]), rng.choice(["lopsided", "side"])))
+        out.append(_sized_case(rng, 48, "balanced", flavour="grid"))
+    else:
+        for B in BLOCKS_THOROUGH:
+            for shape in ("balanced", "balanced", "lopsided", "side"):
+                for _ in range(3 if B <= 64 else 1):
+                    out.append(_sized_case(rng, B, shape))
+    return out
+
+
 def generate(rng, tier):
     n_cases, maxn = (200, 6) if tier == "quick" else (2000, 16)
     cases = [_dtype_case(rng, 5) for _ in range(24 if tier == "quick" else 240)]
@@ -69,6 +162,8 @@ def generate(rng, tier):
         if tier != "quick" and rng.random() < 0.7:
             mx = 7
         cases.append(c01._gen_case(rng, cls, mx))
+    # last, so that the stream of the classes above is the one the earlier evidence was produced with
+    cases += _sized_cases(rng, tier)
     return cases
 
 
@@ -255,7 +350,20 @@ def finding_of(c, o, detail):
 
 # ------------------------------------------------------------------------------------ shrinking
 def shrink_candidates(c):
+    # large diagrams first lose blocks of points (halves, quarters, ...), then single points: a failure that
+    # needs a minimum size ends at that size after a logarithmic number of runs plus one scan
     for key in ("S", "T"):
+        n = len(c[key])
+        w = n // 2
+        while w >= 2:
+            for i in range(0, n, w):
+                d = dict(c)
+                d[key] = c[key][:i] + c[key][i + w:]
+                yield d
+            w //= 2
+    for key in ("S", "T"):
+        if len(c[key]) > 16:        # small blocks have been tried; a point-by-point scan of a large diagram
+            continue                # costs one interpreter start per point and gains little
         for i in range(len(c[key])):
             d = dict(c)
             d[key] = c[key][:i] + c[key][i + 1:]
